@@ -37,6 +37,7 @@ def check(run, prog):
     r1_copy_false(ck, prog, run)
     r2_dispatch(ck, prog, run)
     r3_r4_from_angles(ck, prog, run)
+    r5_day_frac(ck, prog, run)
     run.extra["decided_by"] = ck.how
 
 
@@ -307,6 +308,67 @@ def r2_dispatch(ck, prog, run):
         ck.same("R2", f.where, "np.exp(1j * phase)", "evaluated on i * 2*pi * frac only (the cycle count does not enter)", ok,
                 found=str([[str(x)[:60] for x in t[2]] for t in calls]), nontrivial=True)
     run.floor("R2", "ufunc family / operand arrangements evaluated", n_fam, 51)
+
+
+# ---------------------------------------------------------------------------------------- R5
+def r5_day_frac(ck, prog, run):
+    """day_frac folded on concrete doubles (IEEE round-to-nearest-even at every operation of the source, astropy's two_sum /
+    two_product as exact error-free transformations) at operand vectors chosen to break order-dependent or lossy accumulation:
+    both magnitude orders, inexact sums, fractions far below the count's resolution, ties at +-1/2.  The result must be the exact
+    value to within 2^-52 cycle, an integer count and |fraction| <= 1/2.  This REFUTES a broken accumulation with a concrete
+    operand pair; passing it is not a proof of the error-free transformations (declared not decided)."""
+    from fractions import Fraction
+    from ..symeval import Evaluator
+    f = prog.func("day_frac")
+    run.touched(f)
+
+    def D(x):
+        fr_ = Fraction(x)
+        return Num(sp.Rational(fr_.numerator, fr_.denominator), isfloat=True)
+    pairs = [(2.0**40, 0.3), (0.3, 2.0**40), (3.0, 1e-17), (1e-17, 3.0), (-(2.0**45), 0.7), (0.7, -(2.0**45)), (0.5, 0.5), (0.1, 0.2), (2.0**52, 0.5),
+             (0.5, 2.0**52), (1e10, -1e-7), (-1e-7, 1e10), (123456789.0, 0.987654321), (0.987654321, 123456789.0), (-0.5, -2.0), (2.5, 0.0), (0.0, -3.5),
+             (2.0**51 + 1.0, 0.25), (0.25, 2.0**51 + 1.0)]
+    scal = [None, ("factor", 3.0), ("factor", 0.1), ("factor", -7.25), ("divisor", 3.0), ("divisor", 0.7)]
+    if run.tier == "quick":
+        scal = scal[:3] + scal[4:5]
+    bad, unk, n = [], [], 0
+    tol = Fraction(1, 2**52)
+    for a, b in pairs:
+        for sc in scal:
+            if sc is not None and abs(a) + abs(b) > 2.0**50:
+                continue
+            n += 1
+            ev = Evaluator(prog)
+            ev.float_fold = True
+            kw = {} if sc is None else {sc[0]: D(sc[1])}
+            label = f"day_frac({a!r}, {b!r}" + ("" if sc is None else f", {sc[0]}={sc[1]!r}") + ")"
+            try:
+                r = ev.call(f, [D(a), D(b)], kw)
+            except Raised as e:
+                bad.append((label, f"raises {e}"[:80]))
+                continue
+            except (Unsupported, DimensionError) as e:
+                unk.append((label, str(e)[:120]))
+                continue
+            if not (isinstance(r, TupleV) and len(r.items) == 2 and all(isinstance(x, Num) and x.expr.is_Rational for x in r.items)):
+                unk.append((label, repr(r)[:80]))
+                continue
+            day, frac = (Fraction(int(x.expr.p), int(x.expr.q)) for x in r.items)
+            exact = Fraction(a) + Fraction(b)
+            if sc is not None:
+                exact = exact * Fraction(sc[1]) if sc[0] == "factor" else exact / Fraction(sc[1])
+            if day.denominator != 1:
+                bad.append((label, f"count {float(day)} is not an integer"))
+            elif abs(frac) > Fraction(1, 2):
+                bad.append((label, f"fraction {float(frac)} outside [-1/2, 1/2]"))
+            elif abs(day + frac - exact) > tol * max(1, abs(exact) / 2**52):
+                bad.append((label, f"count + fraction = {float(day)} + {float(frac)!r}, off by {float(day + frac - exact):.3e} cycle"))
+    run.ob("R5", f.where, f"day_frac on {n} adversarial operand vectors (both magnitude orders, with and without factor/divisor)",
+           "count + fraction equals the exact value to within 2^-52 cycle, the count is an integer and |fraction| <= 1/2 "
+           "(source folded on concrete doubles with IEEE rounding; a refutation, not a proof)",
+           (not bad) if not unk else (False if bad else None), found=str(bad[:3]) if bad else None, nontrivial=True,
+           note=f"{len(bad)} wrong of {n}" + (f"; not evaluable: {unk[:2]}" if unk else ""))
+    run.floor("R5", "operand vectors", n, 30)
 
 
 # ---------------------------------------------------------------------------------------- R3 / R4
